@@ -214,7 +214,13 @@ func (ti *TypeInfo) zeroOfSort(s string) *Term {
 	return c.Var("zero_"+sanitize(s), s)
 }
 
-func (c *Ctx) emptyStr() *Term { return c.Var("str_empty", SStr) }
+func (c *Ctx) emptyStr() *Term {
+	t := c.Var("str_empty", SStr)
+	if _, ok := c.symAxioms["str_empty"]; !ok {
+		c.symAxioms["str_empty"] = []*Term{c.Eq(c.UF("str_len", SBV(64), t), c.BV(0, 64))}
+	}
+	return t
+}
 func (c *Ctx) nilIface() *Term { return c.Var("iface_nil", SIface) }
 func (c *Ctx) StrLen(s *Term) *Term {
 	return c.UF("str_len", SBV(64), s)
